@@ -99,6 +99,7 @@ func Open(path string, opts *Options) (*DB, error) {
 			return nil, err
 		}
 		db.hashSeed = seed
+		db.hashSeed = verifSeed(db.hashSeed)
 	} else {
 		if err := db.readMeta(); err != nil {
 			return nil, errors.Wrap(err, "reading db meta")
@@ -301,6 +302,7 @@ func (db *DB) Put(key []byte, value []byte) error {
 	defer db.mu.Unlock()
 
 	segID, offset, err := db.datalog.put(key, value)
+	verifYield("put.logged")
 	if err != nil {
 		return err
 	}
